@@ -209,12 +209,16 @@ def run(chk):
         ops_, hs_ = [0.5 * SZ, np.diag([1.0, 0.0, -1.0])], [0.4 * SZ, np.diag([0.0, 0.5, 1.2]).astype(complex)]
         r0s_ = [np.diag([0.8, 0.2]).astype(complex), np.diag([0.5, 0.3, 0.2]).astype(complex)][:nsys]
         ss_ = [oqupy.TimeDependentSystemWithField(lambda t, a, i=i: hs_[i] * (1 + 0.1 * a.real)) for i in range(nsys)]
+        # the field in other units: every second case the whole field (initial value and equation of motion) is smaller by 1e-14
+        # (nothing in the Heun rule has an absolute scale)
+        sc_ = 1.0 if it % 2 == 0 else 1e-14
+        al, be = al * sc_, be * sc_
         eom_ = lambda t, st, a: al + be * t
         mfs_ = oqupy.MeanFieldSystem(ss_, field_eom=eom_)
         par_ = oqupy.TempoParameters(dt=dt, epsrel=1e-7, dkmax=3, subdiv_limit=None)
         baths_ = [oqupy.Bath(ops_[i], corr_) for i in range(nsys)]
-        a0 = 0.4 + 0.1j
-        info = {"kind": "stationary-systems", "systems": nsys, "dt": dt, "N": N, "start": start, "eom": [str(al), str(be)], "coupled": real_bath}
+        a0 = (0.4 + 0.1j) * sc_
+        info = {"kind": "stationary-systems", "field_scale": sc_, "systems": nsys, "dt": dt, "N": N, "start": start, "eom": [str(al), str(be)], "coupled": real_bath}
         chk.search_cases += 1
         chk.count("stationary_systems")
         chk.case(info, ("stationary", nsys, dt, N, start, real_bath))
@@ -229,7 +233,7 @@ def run(chk):
             continue
         for nm_, dy_ in (("mft", d1), ("cdwf", d2)):
             fl_ = [complex(x) for x in dy_.fields]
-            if len(fl_) != N + 1 or max(abs(f_ - w_) for f_, w_ in zip(fl_, want)) > 1e-11:
+            if len(fl_) != N + 1 or max(abs(f_ - w_) for f_, w_ in zip(fl_, want)) > 1e-11 * sc_:
                 chk.fail("heun-not-exact:" + nm_, f"{nm_}: systems that do not move, field equation {al} + {be} t from t0 = {start}: the field deviates from the exact "
                          f"integral by {max(abs(f_ - w_) for f_, w_ in zip(fl_, want)):.2e}", info)
                 break
